@@ -130,11 +130,14 @@ where
                 if self.state == PesState::Begin {
                     self.stream_consumer.start_stream(ctx);
                 }
-                self.state = PesState::Started;
             }
+            // only treat the PES packet as open if begin_packet() was actually delivered;
+            // otherwise drop its continuation data rather than passing it to the consumer,
+            self.state = PesState::IgnoreRest;
             if let Some(payload) = packet.payload() {
                 if let Some(header) = PesHeader::from_bytes(payload) {
                     self.stream_consumer.begin_packet(ctx, header);
+                    self.state = PesState::Started;
                 }
             }
         } else {
